@@ -437,6 +437,9 @@ def evaluate(cases):
         reqs += [(1701, wc), (1702, [wc, doc.v if isinstance(doc, Ok) else ""]),
                  (1703, [wc, rd.v if isinstance(rd, Ok) else []]), (1705, wc), (1706, wc)]
     resp = oracle_batch(reqs)
+    # the reader model's answer class (request 1707) is only needed where it did not return captions (1705 status != 0)
+    need = [i for i in range(len(obs)) if resp[5 * i + 3][0] != 0 and resp[5 * i + 4][0]]
+    classes = dict(zip(need, oracle_batch([(1707, wire_caps(obs[i][0]["caps"])) for i in need]))) if need else {}
     out, second = [], []
     for i, (case, sizes, rows, doc, rd) in enumerate(obs):
         m, v_out, v_rd, rt, dom = resp[5 * i:5 * i + 5]
@@ -444,7 +447,8 @@ def evaluate(cases):
         caps = case["caps"]
         near = near_threshold(caps, sizes)
         rec = {"case": case, "sizes": sizes, "rows": rows, "viol": None, "dis": None, "near": near, "doc": doc,
-               "clear_removed": False, "thm_domain": bool(dom[0]), "model_class": dom[1]}
+               "clear_removed": False, "thm_domain": bool(dom[0]),
+               "model_class": 0 if rt[0] == 0 else classes.get(i)}
         inp = plain(case)
         base = {"input": inp, "replay": "write", "stream": "B"}
         special = {i for i, r in enumerate(rows) if r > 15} | {i for i, c in enumerate(caps) if is_blank_text(c["lines"])}
